@@ -324,7 +324,12 @@ class C02(Prop):
                   "round(2.567, ndigits=1)", "[1, 2] + [3]", "(1, 'a')", "'a' + 'b'", "2 ** 0.5", "-0.0", "1e22", "1e16",
                   "float('nan')", "inf", "1/0", "zz", "pi()", "10**5000", "10**4299 > 1", "max(3, 4) == 4", "1 and 2",
                   "0 and 1/0", "'x' if '' else 'y'", "len('true and false')", "abs(-3) >= 3", " 1", "1 ", "1 != 1",
-                  "round(1.234, ndigits=1, ndigits=2)", "None", "True", "(2 > 1) + 1", "[1 < 2]", "'1 < 2'"]
+                  "round(1.234, ndigits=1, ndigits=2)", "None", "True", "(2 > 1) + 1", "[1 < 2]", "'1 < 2'",
+                  # the wrapper's own reading of the prompt: number spellings, trailing dots / punctuation
+                  "2 + 2.", "1.", ".5 * 4", "1_000 + 1", "0x10 + 1", "1e3", "7 // 2 ?", "3 * (1 + 2) !", "1 if 0 else 2.",
+                  "2 ** 3 ** 2", "-2 ** 2", "10 % 3.", "1 .", "(1).", "1..real",
+                  # names that are not allow-listed: Python raises with "the same allow-listed names"
+                  "ans + 1", "_ * 2", "eval('1')", "getattr(1, 'real')", "x1 + 1", "math.sqrt(4)", "str(1)", "print(1)"]
         lines = mito.header(rng, self.facts, silent=True)
         for src in LEGACY:
             lines.append(mito.cdg_line(src, src == "10**5000"))
